@@ -70,6 +70,9 @@ class StateView:
     def list_of(self, obj):
         return z3.Select(self.st.lists, V.Val.a(obj))
 
+    def set_of(self, obj):
+        return z3.Select(self.st.sets, V.Val.a(obj))
+
     def glob(self, module, name):
         v = self.st.globals.get((module, name))
         if v is None:
@@ -150,8 +153,13 @@ class Contract:
         self.ensures_on_raise_.append((name, fn))
         return self
 
-    def loop(self, ordinal, invariant=None, frame=None, decreases=None, lists=True, ghost=(), single_iteration=None):
-        self.loops[ordinal] = LoopSpec(invariant, frame, decreases, lists, ghost=ghost, single_iteration=single_iteration)
+    def loop(self, ordinal, invariant=None, frame=None, decreases=None, lists=True, ghost=(), single_iteration=None, sets=False):
+        self.loops[ordinal] = LoopSpec(invariant, frame, decreases, lists, ghost=ghost, single_iteration=single_iteration, sets=sets)
+        return self
+
+    def modifies(self, *fields, lists=False, sets=False):
+        """Frame: only these heap fields (and list/set contents if enabled) may differ at any exit."""
+        self.frame_ = (set(fields), lists, sets)
         return self
 
     def setup(self, fn):
@@ -162,6 +170,12 @@ class Contract:
     def replay(self, fn):
         self.replay_ = fn
         return self
+
+    def _havoc_lists(self, st):
+        if getattr(self, "modifies_lists", False):
+            st.lists = z3.Const(V.fresh_name("lists"), st.lists.sort())
+        if getattr(self, "modifies_sets", False):
+            st.sets = z3.Const(V.fresh_name("sets"), st.sets.sort())
 
     # ---- modular application at a call site
     def apply(self, eng: Engine, st: State, args, kwargs, line=0):
@@ -195,6 +209,7 @@ class Contract:
             st_r = st.copy()
             if self.modifies_:
                 eng.havoc_heap(st_r, self.modifies_)
+            self._havoc_lists(st_r)
             if cond is not None:
                 st_r.assume(cond(Ctx(eng, bound, pre, st_r)))
             for nm, fn in self.ensures_on_raise_:
@@ -203,6 +218,7 @@ class Contract:
                 yield st_r, Raise(Exc(exc_cls, (), note=f"from contract {self.key}"))
         if self.modifies_:
             eng.havoc_heap(st, self.modifies_)
+        self._havoc_lists(st)
         res = V.fresh_val("res_" + self.qualname.replace(".", "_"))
         st.assume(eng.external_ref_fact(st, res))
         hint = None
@@ -368,6 +384,7 @@ def _verify(con: Contract, pack: Pack, modular_contracts: dict, res: FuncResult)
             rt = eng.lift(r, st1)
             ctx = Ctx(eng, params, pre, st1, result=rt)
             ctx.result_value = r
+            _frame_obligations(eng, con, pre, st1, "on return")
             for nm, fn in con.ensures_:
                 g = fn(ctx)
                 eng.oblige(st1, f"ensures {nm}", g, "post", info={"ctx": ctx})
@@ -443,7 +460,27 @@ def _verify_live(eng, con, pack, modular_contracts, res, mod):
     res.pre = pre
 
 
+def _frame_obligations(eng, con, pre, st, what):
+    fr = getattr(con, "frame_", None)
+    if fr is None:
+        return
+    fields, lists, sets = fr
+    for f, arr in st.heap.items():
+        if f in fields:
+            continue
+        base = pre.heap.get(f)
+        if base is None:
+            base = z3.Const(f"H0.{f}", arr.sort())
+        if not z3.eq(arr, base):
+            eng.oblige(st, f"frame ({what}): field {f} is not modified", arr == base, "frame")
+    if not lists and not z3.eq(st.lists, pre.lists):
+        eng.oblige(st, f"frame ({what}): no list is modified", st.lists == pre.lists, "frame")
+    if not sets and not z3.eq(st.sets, pre.sets):
+        eng.oblige(st, f"frame ({what}): no set is modified", st.sets == pre.sets, "frame")
+
+
 def _raise_obligations(eng, con, params, pre, st, exc: Exc):
+    _frame_obligations(eng, con, pre, st, "on raise")
     ctx = Ctx(eng, params, pre, st, exc=exc)
     label = exc.pycls.__name__ if exc.pycls else "unknown-class exception"
     if con.raises_ is not None:
